@@ -533,4 +533,65 @@ def purge : Act κ ν Unit := do
   rawPurge 3
 
 end Arc
+
+/-! ### WTinyLFUCache (wtinylfu.rs): lists 0, 1 = the SegmentedCache (probationary, protected), 2 = the window LRU.
+    Only public operations of the parts are used; the TinyLFU estimator is not a list: its `KeyHasher` is user code
+    (`userCall`), and the admission verdict `lt(candidate, victim)` is a parameter (both verdicts are explored). -/
+namespace Wt
+
+def slruContains (k : κ) : Act κ ν Bool := do
+  match ← mapGet 1 k with
+  | some _ => pure true
+  | none => do
+    match ← mapGet 0 k with
+    | some _ => pure true
+    | none => pure false
+
+def put (admitLt : Bool) (k : κ) (v : ν) : Act κ ν (PutResult κ ν) := do
+  match ← rawRemove 2 k with
+  | none => do
+    if ← slruContains k then Slru.put k v
+    else do
+      match ← rawPut 2 k v with
+      | .put => pure .put
+      | .update o => pure (.update o)
+      | .evicted ek ev => do
+        let g ← getG
+        if len g 0 + len g 1 < g.cap 0 + g.cap 1 then Slru.put ek ev
+        else if (chain g 0).isEmpty then Slru.put ek ev           -- `peek_lru_from_probationary()` is `None`
+        else do
+          userCall                                                  -- `tinylfu.lt`: `KeyHasher::hash_key`
+          if admitLt then pure (.evicted ek ev)                    -- the candidate is handed back to the caller
+          else Slru.put ek ev
+      | other => pure other
+  | some old => do
+    let g ← getG
+    if len g 1 ≥ g.cap 1 then do
+      match ← rawRemoveLru 1 with
+      | none => panic                                               -- `unwrap()` on `None`
+      | some (ek, ev) => do
+        discard (← rawPut 2 ek ev)
+        discard (← Slru.putProtected k v)
+        pure (.update old)
+    else do
+      discard (← Slru.putProtected k v)
+      pure (.update old)
+
+/-- `get` / `get_mut`: `try_reset`, `increment` (hashes the key), window first -/
+def get (k : κ) : Act κ ν Bool := do
+  userCall
+  match ← rawGet 2 k with
+  | some _ => pure true
+  | none => Slru.get k
+
+def remove (k : κ) : Act κ ν (Option ν) := do
+  match ← rawRemove 2 k with
+  | some v => pure (some v)
+  | none => Slru.remove k
+
+def purge : Act κ ν Unit := do
+  rawPurge 2
+  Slru.purge
+
+end Wt
 end M.AG
